@@ -1,56 +1,85 @@
 ------------------------------ MODULE LiftWaiter ------------------------------
 (* Property C19, schedule part: `await waiter(structure)` as a state machine.                  *)
 (*                                                                                             *)
-(* The structure holds awaitables (futures, coroutines, tasks).  The caller does not control   *)
-(* the order in which they complete: one action Complete(i) per awaitable, enabled while i is  *)
-(* pending.  The machine keeps `cur`, the structure with the results delivered so far put in   *)
-(* place (position by position, as the nested gathers of the code do), and returns it - action *)
-(* Return - only when nothing is pending.  Every behaviour is a schedule; TLC explores all n!  *)
-(* of them.  The law: the value returned is Subst(tree, all awaitables, V) whatever the order. *)
+(* The structure holds awaitables: futures and running tasks, which make progress on their own, *)
+(* and un-started coroutines, which only run once somebody awaits them.  The caller does not   *)
+(* control the order in which they complete - and a coroutine may be unable to finish before   *)
+(* another one has started.  The law: waiter STARTS every awaitable before it waits for any    *)
+(* (action Start: all of them are concurrently pending), then one action Complete(i) per       *)
+(* awaitable, enabled while i is pending, has started and what it depends on has started.  The *)
+(* machine keeps `cur`, the structure with the results delivered so far put in place (position *)
+(* by position, as the nested gathers of the code do), and returns it - action Return - only   *)
+(* when nothing is pending.  Every behaviour is a schedule; TLC explores all n! of them.  The  *)
+(* value returned is Subst(tree, all awaitables, V) whatever the order, and waiter returns.    *)
+(*                                                                                             *)
+(* Concurrent = FALSE is a mechanism model of a waiter that awaits its awaitables one after    *)
+(* the other (each started only when all earlier ones are done): with inter-dependent          *)
+(* coroutines it never returns - Termination fails, which is what MC_LiftWaiter_sequential.cfg *)
+(* demonstrates (run with must_fail).                                                          *)
 EXTENDS Lift
 CONSTANTS Trees,        \* the structures explored
-          V             \* the result of each awaitable: a function id -> value
-VARIABLES tree, pending, cur, out, hist
-vars == <<tree, pending, cur, out, hist>>
+          V,            \* the result of each awaitable: a function id -> value
+          Concurrent    \* TRUE: the law; FALSE: the sequential mechanism
+VARIABLES tree, started, pending, cur, out, hist
+vars == <<tree, started, pending, cur, out, hist>>
 
 NotYet == <<"pending", 0>>
 
 Init == /\ tree \in Trees
+        /\ started = AwIds(tree) \ CoroIds(tree)        \* futures and tasks do not wait for waiter
         /\ pending = AwIds(tree)
         /\ cur = tree
         /\ out = NotYet
         /\ hist = <<>>
 
+\* waiter is called: every awaitable is started before any is waited for
+Start == /\ Concurrent /\ started # AwIds(tree)
+         /\ started' = AwIds(tree)
+         /\ UNCHANGED <<tree, pending, cur, out, hist>>
+\* the sequential mechanism: the next coroutine is started when everything before it is done
+StartSeq == /\ ~Concurrent
+            /\ \E i \in AwIds(tree) \ started :
+                  /\ \A j \in AwIds(tree) : j < i => j \notin pending
+                  /\ started' = started \cup {i}
+            /\ UNCHANGED <<tree, pending, cur, out, hist>>
+
+CanComplete(i) == /\ i \in pending /\ out = NotYet
+                  /\ i \in started /\ DepsOf(tree, i) \subseteq started
+                  /\ Concurrent => started = AwIds(tree)
 \* awaitable i delivers its result
-Complete(i) == /\ i \in pending /\ out = NotYet
+Complete(i) == /\ CanComplete(i)
                /\ pending' = pending \ {i}
                /\ cur' = Fill(cur, i, V[i])
-               /\ UNCHANGED <<tree, out, hist>>
+               /\ UNCHANGED <<tree, started, out, hist>>
 \* the same, remembering the order (generator configurations only)
-CompleteH(i) == /\ i \in pending /\ out = NotYet
+CompleteH(i) == /\ CanComplete(i)
                 /\ pending' = pending \ {i}
                 /\ cur' = Fill(cur, i, V[i])
                 /\ hist' = Append(hist, i)
-                /\ UNCHANGED <<tree, out>>
+                /\ UNCHANGED <<tree, started, out>>
 \* waiter returns
 Return == /\ pending = {} /\ out = NotYet
           /\ out' = cur
-          /\ UNCHANGED <<tree, pending, cur, hist>>
+          /\ UNCHANGED <<tree, started, pending, cur, hist>>
 
-Next  == (\E i \in AwIds(tree) : Complete(i)) \/ Return
-NextH == (\E i \in AwIds(tree) : CompleteH(i)) \/ Return
+Next  == Start \/ (\E i \in AwIds(tree) : Complete(i)) \/ Return
+NextH == Start \/ (\E i \in AwIds(tree) : CompleteH(i)) \/ Return
 Spec  == Init /\ [][Next]_vars /\ WF_vars(Next)
+NextSeq == StartSeq \/ (\E i \in AwIds(tree) : Complete(i)) \/ Return
+SpecSeq == Init /\ [][NextSeq]_vars /\ WF_vars(NextSeq)
 
 Done == out # NotYet
 
 \* --- clauses ---------------------------------------------------------------------------------
-PendingIsSubset  == pending \subseteq AwIds(tree)
+PendingIsSubset  == pending \subseteq AwIds(tree) /\ (AwIds(tree) \ pending) \subseteq started
 \* what has been delivered so far depends on *which* awaitables completed, not on their order
 ProgressIsSet    == cur = Subst(tree, AwIds(tree) \ pending, V)
 \* the result: every awaitable replaced by its value, same structure - for every schedule
 OrderIndependent == Done => out = Subst(tree, AwIds(tree), V)
 NothingLeft      == Done => AwIds(out) = {} /\ pending = {}
 ShapeKept        == SameShape(tree, cur)
+\* once everything has started, every pending awaitable may be the next to complete
+AnyOrder         == (started = AwIds(tree) /\ out = NotYet) => \A i \in pending : ENABLED Complete(i)
 NoEarlyReturn    == [][out' # out => pending = {}]_vars
 Termination      == <>Done
 =============================================================================
